@@ -486,6 +486,29 @@ def analyze(ctx, want):
         # configuration and the text pipeline are premises as well
         from . import pC15
         pC15.parse_pipeline(ctx, "C02.k")
+        # ... and the reasons given for the sites of the NFA layer ("id == index", "targets are states of this NFA", "the NFA
+        # that contains a state is found") are the numbering / closure rules: a build that panics there panics under the cache
+        # lock and poisons it for every thread
+        from . import nfa_rules, closure_rules
+        nfa_rules.analyze(ctx, {"C02.a", "C02.b"})
+        closure_rules.analyze(ctx, {"C02.d"})
+    if any(g_ == "scan" for g_, _ in groups) and not getattr(ctx, "_panic_premises_scan", False):
+        # the reasons given for the scan path's sites are rules of the kernel, the cursor and the construction: "end and type are
+        # written together" (C05.a/d), "the start is set before any candidate" (C07.a), "offset <= len by the clamp" (C10.c), "the
+        # line table stays strictly ascending" (C09.b), "labels and terminal_ids come from the same pattern list and the
+        # minimizer copies labels" (C02.d, C03.g) — decided wherever this inventory is used
+        ctx._panic_premises_scan = True
+        from . import kernel, cursor, closure_rules, minimizer_rules
+        kernel.analyze(ctx, {"C05.a", "C05.d", "C07.a"})
+        cursor.analyze(ctx, {"C09.b", "C10.c"})
+        closure_rules.analyze(ctx, {"C02.d"})
+        minimizer_rules.analyze(ctx, {"C03.g"})
+    if any(g_ == "dot" for g_, _ in groups) and not getattr(ctx, "_panic_premises_dot", False):
+        # "state ids are < states.len() == end_states.len()" (C02.d, C03.f/g)
+        ctx._panic_premises_dot = True
+        from . import closure_rules, minimizer_rules
+        closure_rules.analyze(ctx, {"C02.d"})
+        minimizer_rules.analyze(ctx, {"C03.f", "C03.g"})
     for group, rule in groups:
         g, nroots, nreach = inv[group]
         ctx.floor(rule, "%s-path entry points" % group, nroots, {"scan": 10, "build": 8, "dot": 1}[group])
